@@ -151,8 +151,29 @@ func cmdCheck(args []string) int {
 	var obls []*Obligation
 	var funcErrs []string
 	var fnNames []string
+	var trustedUsed []string
+	done := map[string]bool{}
+	// worklist: functions carrying clauses of the property, then (transitively) every callee whose contract was used at a
+	// call site. A callee's contract is an assumption of the caller's proof whatever its tags, so all of its obligations
+	// are discharged in this run too.
+	type workItem struct {
+		ct  *Contract
+		all bool
+	}
+	var work []workItem
 	for _, ct := range selected {
+		work = append(work, workItem{ct, false})
+	}
+	for len(work) > 0 {
+		it := work[0]
+		work = work[1:]
+		ct := it.ct
+		if done[ct.Key] {
+			continue
+		}
+		done[ct.Key] = true
 		if ct.Trusted {
+			trustedUsed = append(trustedUsed, ct.Key)
 			continue
 		}
 		res := v.VerifyFunc(ct)
@@ -162,12 +183,22 @@ func cmdCheck(args []string) int {
 		}
 		if res.Root != nil {
 			for _, o := range res.Root.obls {
-				if oblServes(o, *prop) {
+				if it.all || oblServes(o, *prop) {
 					obls = append(obls, o)
+				}
+			}
+			if fre == nil {
+				for _, ck := range sortedKeys(v.callees[res.Root]) {
+					if !done[ck] {
+						if cct := specs.Contracts[ck]; cct != nil {
+							work = append(work, workItem{cct, true})
+						}
+					}
 				}
 			}
 		}
 	}
+	sort.Strings(fnNames)
 	tGen := time.Since(t0).Seconds() - tLoad
 	dir := *keep
 	if dir == "" {
@@ -276,6 +307,7 @@ func cmdCheck(args []string) int {
 				"solver_cpu_s":             round2(solverSecs),
 				"samples":                  samples,
 				"engine_errors":            funcErrs,
+				"trusted_contracts_used":   trustedUsed,
 			},
 			"assumptions": standingAssumptions,
 			"wall_s":      round2(wall),
